@@ -158,6 +158,11 @@ impl ConditionEvaluatorBuilder {
     }
 
     pub fn add_special_fields(&mut self, plan: &QueryPlan) {
+        self.add_event_type_condition(plan);
+        self.add_scope_conditions(plan);
+    }
+
+    fn add_event_type_condition(&mut self, plan: &QueryPlan) {
         if let Command::Query { event_type, .. } = &plan.command {
             if event_type != "*" {
                 info!(
@@ -171,7 +176,10 @@ impl ConditionEvaluatorBuilder {
                 );
             }
         }
+    }
 
+    /// The row-level conditions of `FOR <context>` and `SINCE`.
+    fn add_scope_conditions(&mut self, plan: &QueryPlan) {
         if let Some(context_id) = plan.context_id() {
             info!(
                 target: "sneldb::evaluator",
@@ -217,6 +225,35 @@ impl ConditionEvaluatorBuilder {
     pub fn into_evaluator(self) -> ConditionEvaluator {
         info!(target: "sneldb::evaluator", "ConditionEvaluator finalized");
         self.evaluator
+    }
+
+    /// Evaluator for whole events (memtable rows). An `Event` always carries event_type,
+    /// context_id and timestamp, so the special-field conditions apply to aggregation plans
+    /// as well: a memtable holds events of every type and context of its shard.
+    pub fn build_for_events(plan: &QueryPlan) -> ConditionEvaluator {
+        let mut builder = ConditionEvaluatorBuilder::new();
+        if let Some(where_clause) = plan.where_clause() {
+            builder.add_where_clause(where_clause);
+        }
+        builder.add_special_fields(plan);
+        builder.into_evaluator()
+    }
+
+    /// Evaluator for the rows of segment zones. Zones are per event type, so an aggregation
+    /// plan needs no event_type condition (its projection omits that column); the columns read
+    /// by FOR <context> and SINCE are loaded (AggregationProjection), so those conditions still
+    /// select the rows that are aggregated.
+    pub fn build_for_zones(plan: &QueryPlan) -> ConditionEvaluator {
+        let mut builder = ConditionEvaluatorBuilder::new();
+        if let Some(where_clause) = plan.where_clause() {
+            builder.add_where_clause(where_clause);
+        }
+        if plan.aggregate_plan.is_none() {
+            builder.add_special_fields(plan);
+        } else {
+            builder.add_scope_conditions(plan);
+        }
+        builder.into_evaluator()
     }
 
     pub fn build_from_plan(plan: &QueryPlan) -> ConditionEvaluator {
